@@ -55,6 +55,11 @@ struct Inner {
     all_done: bool,
     names: BTreeMap<usize, String>,
     spurious_wakeups: bool,
+    /// timed waits may return before their time-out without having been notified (legal for a condition variable)
+    early_timed_wakeups: bool,
+    /// its own stream, so that a replayed trace (which does not draw scheduling decisions) sees the same wake-ups
+    wake_rng: Rng,
+    early_wakeups_fired: u64,
     low_prio: i64,
     /// lock-order edges (held -> acquired), by mutex name where known
     pub edges: std::collections::BTreeSet<(usize, usize)>,
@@ -128,6 +133,9 @@ impl Sched {
                 all_done: false,
                 names: BTreeMap::new(),
                 spurious_wakeups,
+                early_timed_wakeups: false,
+                wake_rng: Rng::new(crate::rng::derive(seed, "early-wake", 0)),
+                early_wakeups_fired: 0,
                 low_prio: 0,
                 edges: Default::default(),
                 held: vec![vec![]; n_threads],
@@ -140,6 +148,18 @@ impl Sched {
 
     pub fn name_mutex(&self, id: usize, name: &str) {
         self.inner.lock().unwrap_or_else(|e| e.into_inner()).names.insert(id, name.to_string());
+    }
+
+    /// Switches spurious early returns of timed waits on, drawn from a stream of their own (a function of the scenario,
+    /// not of the schedule's seed: a replayed trace sees the same wake-ups).
+    pub fn set_early_timed_wakeups(&self, seed: u64) {
+        let mut g = self.inner.lock().unwrap_or_else(|e| e.into_inner());
+        g.early_timed_wakeups = true;
+        g.wake_rng = Rng::new(seed);
+    }
+
+    pub fn early_wakeups_fired(&self) -> u64 {
+        self.inner.lock().unwrap_or_else(|e| e.into_inner()).early_wakeups_fired
     }
 
     pub fn set_thread_name(&self, tid: usize, name: &str) {
@@ -242,7 +262,9 @@ impl Sched {
         let n = g.threads.len();
         let mut en: Vec<usize> = (0..n).filter(|i| Self::enabled(g, *i)).collect();
         // timed waits only fire when nothing else can run
-        if en.iter().any(|i| g.threads[*i].want != Want::Sleeping) {
+        // (with early wake-ups switched on, once in a while a timed waiter gets its turn although others could run: time
+        // passes whatever the other threads are doing)
+        if en.iter().any(|i| g.threads[*i].want != Want::Sleeping) && !(g.early_timed_wakeups && g.wake_rng.below(6) == 0) {
             en.retain(|i| g.threads[*i].want != Want::Sleeping);
         }
         if en.is_empty() && g.spurious_wakeups {
@@ -398,9 +420,15 @@ impl teos_common::verif::SyncHooks for Sched {
 
     fn cv_wait_timeout(&self, _cv_id: usize, _mutex_id: usize) -> bool {
         // A timed wait can always return: it is a plain scheduling point that reports a time-out (the caller re-checks
-        // its predicate, as with any condition variable).
+        // its predicate, as with any condition variable). When early wake-ups are switched on, one return in three
+        // reports "woken up before the time-out" although nobody notified: a spurious wake-up.
         if Sched::managed() {
             self.yield_point(Want::Sleeping);
+            let mut g = self.inner.lock().unwrap_or_else(|e| e.into_inner());
+            if g.early_timed_wakeups && g.wake_rng.below(3) == 0 {
+                g.early_wakeups_fired += 1;
+                return false;
+            }
         }
         true
     }
